@@ -14,12 +14,12 @@ use evalexpr::{
 use std::panic::{catch_unwind, AssertUnwindSafe};
 use std::sync::{Arc, Mutex};
 
-pub const FN_NAMES: [&str; 5] = ["f", "g", "h", "k", "n"];
+pub const FN_NAMES: [&str; 6] = ["f", "g", "h", "k", "n", "r"];
 /// builtin names that a context may shadow with a user function (user functions win)
 pub const SHADOW_NAMES: [&str; 3] = ["len", "str::from", "math::abs"];
 pub const VAR_NAMES: [&str; 3] = ["a", "b", "c"];
 /// further variable names used now and then (case variants, longer names)
-pub const EXTRA_VAR_NAMES: [&str; 5] = ["A", "B", "C", "ab", "a_1"];
+pub const EXTRA_VAR_NAMES: [&str; 6] = ["A", "B", "C", "ab", "a_1", "a.b"];
 pub const UNBOUND_NAME: &str = "zz";
 pub const UNKNOWN_FN: &str = "nofn";
 /// argument the harness uses when it probes functions (the stateful sentinel only reads on it)
@@ -32,6 +32,18 @@ pub fn sentinel(name: &str, arg: &V) -> V {
         "g" => Value::Int((hash_str(&cv(arg)) % 7) as i64),
         "h" => Value::Boolean(hash_str(&cv(arg)) & 1 == 1),
         "k" => Value::Tuple(vec![Value::String("k".into()), arg.clone()]),
+        // re-entrant: evaluates an expression of its own through the string-level read-only API
+        // (a spreadsheet-style helper), then returns a value derived from it and the argument
+        "r" => {
+            let inner = evalexpr::eval_with_context(
+                "1 + 1",
+                &EmptyContextWithBuiltinFunctions::<DefaultNumericTypes>::default(),
+            );
+            match inner {
+                Ok(Value::Int(2)) => Value::Tuple(vec![Value::String("r".into()), arg.clone()]),
+                other => Value::String(format!("re-entrant evaluation gave {:?}", other)),
+            }
+        },
         // a variable name: lets programs compute assignment targets
         "n" => Value::String(VAR_NAMES[(hash_str(&cv(arg)) % 3) as usize].to_string()),
         other => Value::Tuple(vec![Value::String(other.to_string()), arg.clone()]),
@@ -48,6 +60,20 @@ pub fn injected_error(index: usize) -> E {
         4 => EvalexprError::expected_number(Value::String(format!("injected@{}", index))),
         5 => EvalexprError::VariableIdentifierNotFound(format!("injected@{}", index)),
         _ => EvalexprError::CustomMessage(format!("injected@{}", index)),
+    }
+}
+
+/// The error a *function call* fails with at seam call `index`: like `injected_error`, plus the
+/// errors a real user function typically returns when it dislikes its argument
+/// (`arg.as_tuple()?`, `arg.as_string()?`, ...) and a not-found error of its own (a dispatcher
+/// that does not know the plugin it was asked for).
+pub fn injected_call_error(index: usize, arg: &V) -> E {
+    match index % 9 {
+        2 => EvalexprError::expected_tuple(arg.clone()),
+        6 => EvalexprError::expected_string(arg.clone()),
+        7 => EvalexprError::expected_boolean(arg.clone()),
+        8 => EvalexprError::FunctionIdentifierNotFound(format!("injected@{}", index)),
+        _ => injected_error(index),
     }
 }
 
@@ -182,7 +208,7 @@ pub fn recording_function(
                 if let Some(idx) =
                     r.record(Ev::Call(name.clone(), cv(arg)), FaultKind::CallError)
                 {
-                    return Err(injected_error(idx));
+                    return Err(injected_call_error(idx, arg));
                 }
             }
         }
@@ -222,7 +248,7 @@ pub fn counter_function(name: String, rec: Option<Rec>) -> Function<DefaultNumer
                 if let Some(idx) =
                     r.record(Ev::Call(name.clone(), cv(arg)), FaultKind::CallError)
                 {
-                    return Err(injected_error(idx));
+                    return Err(injected_call_error(idx, arg));
                 }
             }
         }
@@ -343,7 +369,7 @@ impl Context for SimContext {
                     Ev::Call(identifier.to_string(), cv(argument)),
                     FaultKind::CallError,
                 ) {
-                    return Err(injected_error(idx));
+                    return Err(injected_call_error(idx, argument));
                 }
             }
         }
